@@ -79,26 +79,51 @@ def _decide_bool_fn(fn, ref, res, role_key):
     V, S, E = names
     rl = {"%s.start" % V: "vs", "%s.end" % V: "ve", S: "s", E: "e"}
 
+    class _Ret(Exception):
+        def __init__(self, val):
+            self.val = val
+
     def ev(n, v):
+        """value of a boolean expression / block; `return x` anywhere raises _Ret"""
         n = strip(n)
         if n.k == "block":
             st = n["stmts"]
-            if len(st) != 1:
-                raise NotComparisonOnly("block with %d statements" % len(st))
-            x = st[0]
+            if not st:
+                raise NotComparisonOnly("empty block")
+            for x in st[:-1]:
+                if x.k != "expr_stmt":
+                    raise NotComparisonOnly("statement " + up(x)[:40])
+                e = strip(x["e"])
+                if e.k == "if" and e.get("else") is None:
+                    if ev(e["cond"], v):
+                        ev(e["then"], v)      # must return
+                        raise NotComparisonOnly("`if` without else falls through: " + up(e)[:40])
+                elif e.k == "return":
+                    raise _Ret(ev(e["e"], v))
+                else:
+                    raise NotComparisonOnly("statement " + up(x)[:40])
+            x = st[-1]
             if x.k == "expr_stmt":
                 return ev(x["e"], v)
             raise NotComparisonOnly("statement " + up(x)[:40])
         if n.k == "if":
+            if n.get("else") is None:
+                raise NotComparisonOnly("`if` without else as a value")
             return ev(n["then"], v) if ev(n["cond"], v) else ev(n["else"], v)
         if n.k == "lit" and n["t"] == "bool":
             return str(n["v"]).lower() == "true"
         if n.k == "return":
-            return ev(n["e"], v)
+            raise _Ret(ev(n["e"], v))
         p = Pred(n)
         if p.atoms or any(t not in rl for t in p.terms):
             raise NotComparisonOnly("terms %s" % sorted(set(p.terms) - set(rl)))
         return p.eval({t: v[rl[t]] for t in p.terms}, {})
+
+    def run(v):
+        try:
+            return ev(fn.body, v)
+        except _Ret as r:
+            return r.val
     rows = 0
     try:
         for ranks in weak_orders(4):
@@ -106,7 +131,7 @@ def _decide_bool_fn(fn, ref, res, role_key):
             if not (v["vs"] <= v["ve"] and v["s"] <= v["e"]):
                 continue
             rows += 1
-            got, want = ev(fn.body, v), ref(v)
+            got, want = run(v), ref(v)
             if got != want:
                 res.fail(role_key, fn, "%s differs from the reference (empty range: nothing; value with bases: shares a base with [s,e); value without bases: lies within [s,e]) "
                                        "when %s: code=%s, required=%s" % (fn.name, order_str(v), got, want))
